@@ -6,7 +6,8 @@
 (* identifier texts: order and duplicates matter to the algorithm), and    *)
 (* `out`, the observation of the last call (Idle after the collection      *)
 (* changed).  Actions: Add(id) - the caller appends an identifier;         *)
-(* Call(form) - the public call `_get_omkm_range(ids, format=form)`.       *)
+(* Call(form) - the public call `_get_omkm_range(ids, format=form)`; calls *)
+(* may be repeated on the same collection, which persists (IdsUntouched).   *)
 (*                                                                         *)
 (* The requirement is OmkmRangeText!Judge (see there).  The algorithm of   *)
 (* the code is the named variant "pad4": split at the last delimiter, the  *)
@@ -77,8 +78,8 @@ Init == ids = <<>> /\ out = Idle
 Add(id) == /\ Len(ids) < MaxIds
            /\ ids' = Append(ids, id)
            /\ out' = Idle
-Call(form) ==
-   /\ out = Idle
+Call(form) ==                 \* may follow a call in the other form on the same collection
+   /\ out = Idle \/ out.form # form
    /\ LET r == Compress(Variant, ids) IN
         out' = [form |-> form, raised |-> r.raised,
                 kind |-> IF form = "str" \/ r.raised # "" \/ r.entries = <<>> THEN "text" ELSE "elems",
@@ -101,6 +102,8 @@ NoneAddedInv == "NoneAdded" \notin Verdict
 FormsAgree == (out # Idle /\ out.raised = "" /\ out.form = "str") =>
                  LET r == Compress(Variant, ids) IN StrEntries(out.payload) = r.entries
 \* rejection happens when some identifier is outside MustAccept (model sanity)
+\* a call never changes the caller's collection (only Add does)
+IdsUntouched == [][out' # Idle => ids' = ids]_vars
 TypeOK == /\ ids \in Seq(Universe) /\ Len(ids) <= MaxIds
           /\ out.form \in {"idle", "str", "list"}
 =============================================================================
